@@ -42,6 +42,12 @@ theorem C13_guards_present :
     Gen.Lenient.resolve1Guard = true ∧ Gen.Lenient.resolveAllGuard = true ∧
     Gen.Lenient.pageTreeGuard = true ∧ Gen.Lenient.xrefChainGuard = true := by decide
 
+/-- Round 6: `NumberTree._parse` carries a visited set that also records the indirect `/Kids` array (test with exit,
+growth, handed on to every recursive call) — regenerated from data_structures.py.  PRESENCE ONLY: the walk is not
+modelled; the defect this guard repairs (a directly written node naming the array it sits in as its `/Kids`) is a
+corpus regression and an enumerated fault of the `basic` seed. -/
+theorem C13_numtree_guard_present : Gen.Lenient.numberTreeGuard = true := by decide
+
 /-! ## resolve1 -/
 
 /-- Termination and linear work: for EVERY object graph (self references, 2-cycles, long chains, missing
